@@ -131,6 +131,7 @@ pub struct Interp<'a> {
     pub cwd: Option<PathBuf>,
     pub links: BTreeMap<PathBuf, Vec<String>>,   // link target path -> content rels that are symlinks to it
     pub targets: BTreeMap<PathBuf, Option<Vec<u8>>>, // files under $T as the environment last wrote them
+    pub target_modes: BTreeMap<PathBuf, Option<u32>>, // ... and their permission bits
     pub allow_tmp_leftovers: bool,
     pub deferred: bool, // results are judged after the whole program ran (sysim): no peeking at the directory as it is now
 }
@@ -182,6 +183,7 @@ impl<'a> Interp<'a> {
             cwd: None,
             links: BTreeMap::new(),
             targets: BTreeMap::new(),
+            target_modes: BTreeMap::new(),
             allow_tmp_leftovers: false,
             deferred: false,
         };
@@ -1020,6 +1022,10 @@ impl<'a> Interp<'a> {
             }
         };
         let got_ok = r["r"] == "ok";
+        if got_ok && op.starts_with("copy") && self.target_modes.contains_key(&to) {
+            // the caller asked for a copy onto this path: the permission bits it has now are the caller's doing
+            self.target_modes.insert(to.clone(), std::fs::metadata(&to).ok().map(|m| std::os::unix::fs::PermissionsExt::mode(&m.permissions()) & 0o7777));
+        }
         let dest_preexists = pre != FileState::Absent;
         let is_reflink = op.starts_with("reflink");
         let is_link = op.starts_with("hard_link");
@@ -1423,6 +1429,13 @@ impl<'a> Interp<'a> {
             if have != want {
                 self.viol("linkto", format!("linkto/{}/target-modified", ctx), format!("link target {} was modified by the library", self.unsubst(&p.display().to_string())));
             }
+            // permission bits are part of the caller's file too (a chmod through the cache's symlink lands on it)
+            let mode = std::fs::metadata(&p).ok().map(|m| std::os::unix::fs::PermissionsExt::mode(&m.permissions()) & 0o7777);
+            if let Some(wm) = self.target_modes.get(&p) {
+                if want.is_some() && mode != *wm {
+                    self.viol("linkto", format!("linkto/{}/target-mode-changed", ctx), format!("permission bits of link target {} changed from {:o} to {:o}", self.unsubst(&p.display().to_string()), wm.unwrap_or(0), mode.unwrap_or(0)));
+                }
+            }
         }
     }
 
@@ -1661,6 +1674,7 @@ impl<'a> Interp<'a> {
         let troot = self.root.join("targets");
         if path.starts_with(&troot) {
             self.targets.insert(path.clone(), after.clone());
+            self.target_modes.insert(path.clone(), std::fs::metadata(&path).ok().map(|m| std::os::unix::fs::PermissionsExt::mode(&m.permissions()) & 0o7777));
             if let Some(rels) = self.links.get(&path).cloned() {
                 for rel in rels {
                     if let Some(c) = self.m.content.get_mut(&rel) {
